@@ -175,3 +175,29 @@ pub fn main_with(run: fn(&mut Out, &mut Rng, bool), one: fn(&mut Out, &str)) {
         }
     }
 }
+
+/// Mode S parity, written from Annex 10 Vol IV 3.1.2.3.3 and NOT taken from the code under test: remainder of
+/// data(x)·x^24 modulo G(x) = x^24 + x^23 + … + x^12 + x^10 + x^3 + 1, bit by bit.  For a whole frame `f` of n
+/// bytes, `spec_parity24(&f[..n-3]) ^ last24(f)` is what the standard calls the syndrome (0 for a clean DF11/17/18
+/// frame, the address for the address/parity formats).
+pub fn spec_parity24(data: &[u8]) -> u32 {
+    const G: u32 = 0x1FFF409;
+    let mut r: u32 = 0;
+    for i in 0..data.len() * 8 + 24 {
+        let bit = if i < data.len() * 8 { (data[i / 8] >> (7 - i % 8)) & 1 } else { 0 } as u32;
+        r = (r << 1) | bit;
+        if r & 0x1000000 != 0 {
+            r ^= G;
+        }
+    }
+    r & 0xFFFFFF
+}
+
+/// syndrome of a whole frame (see `spec_parity24`)
+pub fn spec_syndrome(frame: &[u8]) -> u32 {
+    let n = frame.len();
+    if n < 3 {
+        return 0xffff_ffff;
+    }
+    spec_parity24(&frame[..n - 3]) ^ (((frame[n - 3] as u32) << 16) | ((frame[n - 2] as u32) << 8) | frame[n - 1] as u32)
+}
